@@ -13,12 +13,15 @@ Cells == {[pi |-> a, pt |-> b, maxPayload |-> m, enabled |-> en, allowUpgrades |
            transport |-> t, eio |-> e, b64 |-> b6] :
             a \in PIs, b \in PTs, m \in MaxPayloads, en \in EnabledSets, au \in AllowUpgrades, e3 \in Eio3s, ini \in Initials,
             t \in Transports, e \in Eios, b6 \in B64s}
-Init == cell \in Cells
+\* a WebTransport session starts on a bidirectional stream of an HTTP/3 session the application's own server has accepted and
+\* handed over (OnWebTransportSession); its handshake is the packet "0"; it is always of revision 4
+Valid(c) == c.transport = "webtransport" => ("webtransport" \in EnabledSet(c.enabled) /\ c.eio = "4" /\ ~c.b64)
+Init == cell \in {c \in Cells : Valid(c)}
 Next == UNCHANGED cell
 Spec == Init /\ [][Next]_cell
 
 \* revision: 4 when the EIO parameter is 4, otherwise 3 (admitted only when revision 3 is allowed)
-Rev(c) == IF c.eio = "4" THEN 4 ELSE 3
+Rev(c) == IF c.eio = "4" \/ c.transport = "webtransport" THEN 4 ELSE 3
 Admitted(c) == c.transport \in EnabledSet(c.enabled) /\ (Rev(c) = 4 \/ c.eio3)
 \* upgrade targets of the chosen transport that are enabled; none when upgrades are off or the session starts on a socket transport
 Upgrades(c) == IF c.allowUpgrades /\ c.transport = "polling" THEN {"websocket", "webtransport"} \cap EnabledSet(c.enabled) ELSE {}
@@ -28,7 +31,7 @@ ServerPings(c) == Rev(c) = 4
 \* a repeated EIO parameter ("3then4" = EIO=3&EIO=4, "4then3"): which value counts is not documented, but the session is of ONE
 \* revision r: the socket's protocol, the payload format of its responses and its heartbeat mode agree, r = 3 needs revision 3
 \* to be allowed, and a handshake may only be refused for the revision when revision 3 is not allowed
-Repeated(c) == c.eio \in {"3then4", "4then3"}
+Repeated(c) == c.eio \in {"3then4", "4then3"} /\ c.transport # "webtransport"
 RepObsOK(c, o) ==
     IF c.transport \notin EnabledSet(c.enabled) THEN ~o.created /\ o.nconn = 0
     ELSE IF ~o.created THEN o.nconn = 0 /\ ~c.eio3
